@@ -103,6 +103,7 @@ def run(ctx):
     diag_rules = Counter()
     sim_outcomes = Counter()
     diff_sig = Counter()
+    sim_errors = Counter()
     nontrivial = set()
     cur = {}
     for i, (ci, style, src) in enumerate(flat):
@@ -126,6 +127,8 @@ def run(ctx):
             if not bad(s):
                 try:
                     rep = json.loads(s)["report"]
+                    if isinstance(rep, dict) and rep.get("error"):
+                        sim_errors[re.sub(r"[0-9]+", "N", rep["error"])[:70]] += 1
                     sim_outcomes["error" if (isinstance(rep, dict) and rep.get("error")) or not isinstance(rep, dict) else "completed"] += 1
                 except ValueError:
                     sim_outcomes["unparsed"] += 1
@@ -194,6 +197,7 @@ def run(ctx):
         "sim_agree": stats["sim_agree"], "sim_unstable_base_programs": stats["sim_unstable_base"],
         "diffs": {k: stats[k] for k in ("model_diff", "ast_diff", "lint_diff", "sim_diff", "harness-bad")},
         "diff_signatures": dict(diff_sig.most_common(25)),
+        "simulation_errors_of_programs": dict(sim_errors.most_common(15)),
         "decoration_styles": dict(style_count), "simulation_outcomes_of_programs": dict(sim_outcomes),
         "diagnostic_rules_of_programs": dict(diag_rules.most_common(40)), "generator_stats": dict(sorted(g.stats.items())),
     })
